@@ -321,7 +321,7 @@ VARIANTS = [
     V( 'hpace-lookahead-dropped', HFILES, "cur = self.advance()\n adv = cur + ( lookahead or 0.0 )\n if ts > adv:", "cur		= self.advance()\n                    adv		= cur\n                    if ts > adv:", fires=[ 'H-PACE' ] ),
     V( 'hpace-announce-then-next', HFILES, "yield (f,n,cur),(ts,None)\n continue", "yield (f,n,cur),(ts,None)", fires=[ 'H-PACE' ] ),
     V( 'hpace-due-test-inverted', HFILES, "adv = cur + ( lookahead or 0.0 )\n if ts > adv:\n #log.info", "adv		= cur + ( lookahead or 0.0 )\n                    if ts < adv:\n                        #log.info", fires=[ 'H-PACE' ] ),
-    V( 'hpace-no-reread-clock', HFILES, "if ts > adv:\n cur = self.advance()\n adv = cur + ( lookahead or 0.0 )\n if ts > adv:", "if ts > adv:\n                    if ts > adv:", fires=[ 'H-PACE' ] ),
+    V( 'hpace-no-reread-clock', HFILES, "if ts is not None and ts > adv:\n cur = self.advance()\n adv = cur + ( lookahead or 0.0 )\n if ts > adv:", "if ts is not None and ts > adv:\n                    if ts > adv:", fires=[ 'H-PACE' ] ),
     V( 'hload-accept-strictly-greater', HFILES, "inorder = self._ts is None or ts >= self._ts", "inorder		= self._ts is None or ts > self._ts", fires=[ 'H-LOAD' ] ),
     V( 'hload-drain-with-lookahead', HFILES, "while len( self.future ) and self.future[0][0] <= cur:", "while len( self.future ) and self.future[0][0] <= cur + ( self.lookahead or 0.0 ):", fires=[ 'H-LOAD' ] ),
     V( 'hload-pop-newest', HFILES, "ts,regs = self.future.popleft()", "ts,regs		= self.future.pop()", fires=[ 'H-LOAD' ] ),
@@ -405,6 +405,10 @@ VARIANTS = [
     V( 'validate-extent-only-for-writes', LOGIX, 'assert endmax <= endactual, \\', 'assert endactual <= cnt\n            assert endmax <= endactual, \\', silent=[ 'D-VALIDATE' ], why='an additional early check in the write branch changes nothing' ),
     V( 'validate-extent-mirrored-and-count-dropped', LOGIX, 'assert elm <= cnt, \\\n "Attribute %r elements requested invalid: %r" % ( attribute, elm )\n assert endactual <= cnt, \\', 'assert cnt >= endactual, \\', silent=[ 'D-VALIDATE' ], why='elm <= cnt is implied by beg >= 0 and endactual <= cnt' ),
     V( 'spectext-name-padded-to-16', PARSER, "result += data.service_name.encode( 'iso-8859-1' )\n result += b'\\0'\n return result", "result		       += struct.pack( '16s', data.service_name.encode( 'iso-8859-1' ))\n        return result", silent=[ 'L-SPECTEXT' ], why='the conformant producer: the known finding AR disappears' ),
+    V( 'pace-soft-handler-removed', HFILES, "except Exception as exc:\n # The line (already consumed) has no parsable timestamp/serial, or is not in the\n # expected encoding. Report that no record could be parsed; the caller may power thru.\n n += 1\n log.warning( \"%s Playback skipping %s, line %d: %s\", self, self.name+f, n, exc )\n ts,js = None,None", "except ValueError as exc:\n                    raise", fires=[ 'H-PACE' ], why='defect Q reverted' ),
+    V( 'pace-soft-handler-keeps-previous-record', HFILES, "log.warning( \"%s Playback skipping %s, line %d: %s\", self, self.name+f, n, exc )\n ts,js = None,None", "log.warning( \"%s Playback skipping %s, line %d: %s\", self, self.name+f, n, exc )", fires=[ 'H-PACE' ], why='the previous record would be yielded a second time' ),
+    V( 'pace-soft-handler-chain-assignment', HFILES, "ts,js = None,None", "ts = js	= None", silent=[ 'H-PACE' ] ),
+    V( 'load-none-report-compared', HFILES, "assert self.state not in (self.INITIAL, self.SWITCHING)\n continue", "assert self.state not in (self.INITIAL, self.SWITCHING)", fires=[ 'H-LOAD' ], why='a ( None, None ) report reaches ts >= self._deadline' ),
 ]
 
 
